@@ -1,2 +1,109 @@
+"""C14 (generated part) — generated objects, unions and aliases containing doubles have a
+lawful total order, equality and hash."""
+import json
+
+import model as M
+
+DOUBLES = [-0.0, 0.0, 1, -1, "NaN", "Infinity", "-Infinity", 0.5]
+
+
+def law_docs(model, t, cap):
+    saved = model.leaf_docs
+
+    def leaf_docs(k, tt):
+        if k == "double":
+            return DOUBLES
+        if k == "string":
+            return ["s", ""]
+        if k == "integer":
+            return [0, -1]
+        return saved(k, tt)[:2]
+
+    def key_docs(tt):
+        k = model.kind(tt)
+        if k == "double":
+            return ["NaN", "-0.0", "0", "1.5"]
+        return M.Model.key_docs(model, tt)
+
+    model.leaf_docs = leaf_docs
+    model.key_docs = key_docs
+    try:
+        docs = [d for d in model.docs(t, 0, 9) if model.valid(t, d)]
+    finally:
+        model.leaf_docs = saved
+        del model.key_docs
+    out, seen = [], set()
+    for d in docs:
+        s = M.dumps(d)
+        if s not in seen:
+            seen.add(s)
+            out.append(s)
+    return out[:cap]
+
+
+def has_double(model, t, seen=None):
+    seen = seen or set()
+    k = model.kind(t)
+    dt = model.deref(t)
+    if k == "double":
+        return True
+    if k in ("optional", "list", "set"):
+        return has_double(model, dt[k]["itemType"], seen)
+    if k == "map":
+        return has_double(model, dt["map"]["keyType"], seen) or has_double(model, dt["map"]["valueType"], seen)
+    if k in ("object", "union"):
+        key = M.key_of(dt["reference"])
+        if key in seen:
+            return False
+        seen.add(key)
+        d = model.definition(t)
+        return any(has_double(model, f["type"], seen) for f in (d["fields"] if k == "object" else d["union"]))
+    return False
+
+
 def run(a, rep, TypesBuild, tref):
-    rep.cap("not built yet")
+    tb = TypesBuild(a.tier, rep)
+    if not tb.build():
+        return
+    only = a.replay_case
+    cap = 16 if a.tier == "thorough" else 13
+    types = 0
+    for ci, ch, name, kind, shape, cname, cfg in tb.each_type():
+        if kind == "enum":
+            continue
+        if only and (only.get("type") != name or only.get("config") != cname):
+            continue
+        if cname not in ("c0", "c1"):
+            continue
+        model = M.Model(ch["ir"], M.Cfg(cfg["exhaustive"], cfg["serialize_empty"]))
+        t = tref(name)
+        if not has_double(model, t):
+            continue
+        docs = law_docs(model, t, cap)
+        if len(docs) < 2:
+            continue
+        types += 1
+        rep.states += len(docs)
+        resp = tb.probe(ci).ask({"ty": "%s:%s" % (cname, name), "op": "laws", "docs": docs})
+        label = "%s{%s}" % ({"object": "obj", "union": "union", "alias": "alias"}[kind], shape.text if shape else name)
+        if "fails" not in resp:
+            rep.cap("probe error for %s: %s" % (name, resp))
+            continue
+        rep.evaluations += resp["triples"]
+        rep.transitions += resp["pairs"]
+        rep.outcome("types-checked")
+        rep.outcome("equivalence-classes", resp["classes"])
+        case = {"type": name, "config": cname, "docs": docs}
+        for f in resp["fails"]:
+            rep.violation("C14|generated|%s|%s|%s" % (f["law"], label, cname), "%s [%s]: law %s violated: %s" % (label, cname, f["law"], f["detail"]), case)
+        for d in resp["twice_unequal"]:
+            rep.violation("C14|generated|deserialize-twice-unequal|%s|%s" % (label, cname), "%s [%s]: deserializing %s twice gives unequal values" % (label, cname, d), case)
+        if resp["values"] != len(docs):
+            rep.outcome("documents-rejected-by-client-deserializer", len(docs) - resp["values"])
+        if shape is not None and shape.depth >= 1:
+            rep.sample(label, {"type": label, "docs": docs[:6]})
+    tb.close()
+    rep.bounds.update({"values_per_type": cap, "types_with_doubles": types, "double_alphabet": [json.dumps(d) for d in DOUBLES]})
+    rep.rule = ("states = values of generated types containing doubles (directly, in optionals, lists, sets, map keys and values, aliases, nested objects, union variants): per type up to N values built from the "
+                "double alphabet {-0.0, 0.0, 1, -1, 0.5, NaN, Infinity, -Infinity}, absent vs empty, prefix-related lists and maps; all ordered pairs and triples are checked against the order / equality / hash laws on the compiled generated code")
+    rep.assumptions.append("NaN payloads and signs are only reachable in the runtime part (values here come through JSON)")
